@@ -1,5 +1,6 @@
-(* C10 -- Server.Close after Router.Stop: invariants, the deadlock of the pinned
-   treeStorage.Close, termination of the repaired one, instances created after
+(* C10 -- Server.Close after Router.Stop: invariants, the deadlock of the earlier
+   treeStorage.Close (fx_ts = false; "pinned" below = before the repairs F41 / F42, both
+   landed), termination of the present one (fx_ts = true), instances created after
    Overlay.Close. *)
 From Coq Require Import List Arith Bool Lia.
 Import ListNotations.
